@@ -19,6 +19,7 @@ inductive AcctKind where
   | base
   | cva
   | module
+  | dva      -- DelayedVestingAccount: everything locked until the end time
 deriving Repr, DecidableEq, Inhabited
 
 /-- account record; `ident` stands for (account number, sequence, public key) of the embedded
@@ -113,7 +114,13 @@ def State.balance (s : State) (a : String) : Coins := (s.bal.get? a).getD []
 /-- bank `LockedCoins(addr)`; none = panic -/
 def State.locked (s : State) (a : String) : Option Coins :=
   match s.accts.get? a with
-  | some acc => if acc.kind = .cva then lockedCoinsCva acc s.now else some []
+  | some acc =>
+    if acc.kind = .cva then lockedCoinsCva acc s.now
+    else if acc.kind = .dva then
+      -- `DelayedVestingAccount.LockedCoins`: original vesting until the end time, less delegated vesting
+      let vesting := if unixSec s.now ≥ acc.endS then [] else nz acc.ov
+      coinsSub? vesting (coinsMin vesting acc.dv)
+    else some []
   | none => some []
 
 /-- effect of a successful `SendCoins`: balances move; an absent recipient gets a base account -/
